@@ -1,0 +1,168 @@
+//! Verification hooks (feature `verif`): a thin probe around the real `ResourceAllocator`.
+//!
+//! The probe owns a real allocator and forwards to its real methods; the only things it
+//! adds are a deep copy (`fork`) and plain-data snapshots, so that an external explorer can
+//! enumerate every reachable free-state without replaying histories.
+
+use crate::internal::common::resources::ResourceRequest;
+use crate::internal::common::resources::map::ResourceIdMap;
+use crate::internal::server::workerload::WorkerResources;
+use crate::internal::worker::resources::allocator::{AllocatorStaticInfo, ResourceAllocator};
+use crate::internal::worker::resources::concise::verif::ConciseSnap;
+use crate::internal::worker::resources::groups::CouplingWeightItem;
+use crate::internal::worker::resources::map::ResourceLabelMap;
+use crate::internal::worker::resources::pool::verif::PoolSnap;
+use crate::resources::{Allocation, ResourceDescriptor};
+use std::cell::RefCell;
+use std::rc::Rc;
+
+/// Plain-data copy of one granted allocation: per resource (resource id, amount in fractions,
+/// [(index, group, fractions)] in the order the allocator produced them).
+pub type AllocationSnap = Vec<(u32, u64, Vec<(u32, u32, u32)>)>;
+
+pub fn allocation_snapshot(allocation: &Allocation) -> AllocationSnap {
+    allocation
+        .resources
+        .iter()
+        .map(|ra| {
+            (
+                ra.resource_id.as_num(),
+                ra.amount.total_fractions(),
+                ra.indices
+                    .iter()
+                    .map(|i| (i.index.as_num(), i.group_idx, i.fractions))
+                    .collect(),
+            )
+        })
+        .collect()
+}
+
+pub struct AllocatorProbe {
+    allocator: ResourceAllocator,
+    resource_map: ResourceIdMap,
+    descriptor: ResourceDescriptor,
+}
+
+impl AllocatorProbe {
+    pub fn new(descriptor: &ResourceDescriptor) -> Self {
+        let resource_map = ResourceIdMap::from_vec(
+            descriptor
+                .resources
+                .iter()
+                .map(|r| r.name.clone())
+                .collect(),
+        );
+        let label_map = ResourceLabelMap::new(descriptor, &resource_map);
+        let allocator = ResourceAllocator::new(descriptor, &resource_map, &label_map);
+        AllocatorProbe {
+            allocator,
+            resource_map,
+            descriptor: descriptor.clone(),
+        }
+    }
+
+    pub fn resource_map(&self) -> &ResourceIdMap {
+        &self.resource_map
+    }
+
+    pub fn descriptor(&self) -> &ResourceDescriptor {
+        &self.descriptor
+    }
+
+    /// The real `ResourceAllocator::try_allocate`.
+    pub fn try_allocate(&mut self, request: &ResourceRequest) -> Option<Rc<Allocation>> {
+        self.allocator.try_allocate(request)
+    }
+
+    /// The real `ResourceAllocator::is_enabled`.
+    pub fn is_enabled(&self, request: &ResourceRequest) -> bool {
+        self.allocator.is_enabled(request)
+    }
+
+    /// The real `ResourceAllocator::is_capable_to_run`.
+    pub fn is_capable_to_run(&self, request: &ResourceRequest) -> bool {
+        self.allocator.is_capable_to_run(request)
+    }
+
+    /// The real `ResourceAllocator::release_allocation`.
+    pub fn release_allocation(&mut self, allocation: Rc<Allocation>) {
+        self.allocator.release_allocation(allocation)
+    }
+
+    pub fn pools_snapshot(&self) -> Vec<PoolSnap> {
+        self.allocator
+            .pools
+            .iter()
+            .map(|p| p.verif_snapshot())
+            .collect()
+    }
+
+    pub fn concise_snapshot(&self) -> ConciseSnap {
+        self.allocator.free_resources.verif_snapshot()
+    }
+
+    /// Concise state recomputed from the pools (what `validate()` compares with in debug builds).
+    pub fn concise_from_pools(&self) -> ConciseSnap {
+        use crate::internal::worker::resources::concise::ConciseFreeResources;
+        ConciseFreeResources::new(
+            self.allocator
+                .pools
+                .iter()
+                .map(|p| p.concise_state())
+                .collect::<Vec<_>>()
+                .into(),
+        )
+        .verif_snapshot()
+    }
+
+    /// Deep copy of the allocator (pools, concise state, static info incl. the memo of
+    /// optimal objectives).
+    pub fn fork(&self) -> Self {
+        let a = &self.allocator;
+        let static_info = AllocatorStaticInfo {
+            coupling_weights: a
+                .static_info
+                .coupling_weights
+                .iter()
+                .map(|w| CouplingWeightItem {
+                    resource1: w.resource1,
+                    group1: w.group1,
+                    resource2: w.resource2,
+                    group2: w.group2,
+                    weight: w.weight,
+                })
+                .collect(),
+            optional_objectives: RefCell::new(a.static_info.optional_objectives.borrow().clone()),
+            all_resources: a.static_info.all_resources.clone(),
+        };
+        AllocatorProbe {
+            allocator: ResourceAllocator {
+                pools: a
+                    .pools
+                    .iter()
+                    .map(|p| p.verif_clone())
+                    .collect::<Vec<_>>()
+                    .into(),
+                free_resources: a.free_resources.clone(),
+                static_info,
+                own_resources: WorkerResources::clone(&a.own_resources),
+            },
+            resource_map: ResourceIdMap::from_vec(
+                self.descriptor
+                    .resources
+                    .iter()
+                    .map(|r| r.name.clone())
+                    .collect(),
+            ),
+            descriptor: self.descriptor.clone(),
+        }
+    }
+}
+
+/// Snapshot helper used by the simulated worker: pools + concise state of a live allocator.
+pub(crate) fn allocator_snapshot(a: &ResourceAllocator) -> (Vec<PoolSnap>, ConciseSnap) {
+    (
+        a.pools.iter().map(|p| p.verif_snapshot()).collect(),
+        a.free_resources.verif_snapshot(),
+    )
+}
